@@ -393,6 +393,7 @@ class DumperSummary:
     tree: Dict[Path, Tuple[str, Any, Optional[str], int]] = field(default_factory=dict)
     # path -> (kind: field|opt-field|node|placeholder|expr, payload, condition text, lineno)
     node_kinds: Dict[Path, str] = field(default_factory=dict)            # path -> dict | list
+    node_conds: Dict[Path, str] = field(default_factory=dict)            # path of a nested node written only when <cond>
     return_expr: Optional[str] = None
     extra_source: Optional[str] = None
     stores_into_data: List[Tuple[str, int]] = field(default_factory=list)
@@ -576,6 +577,8 @@ def audit_dumper(fn: ast.FunctionDef) -> DumperSummary:
         S.node_kinds[path] = var_kind.get(var, "dict")
         for key, ent in var_node.get(var, {}).items():
             if ent[0] == "node":
+                if ent[2] is not None:
+                    S.node_conds[path + (key,)] = ent[2]
                 build(ent[1], path + (key,), seen)
             else:
                 S.tree[path + (key,)] = ent
